@@ -6,7 +6,7 @@ Import ListNotations.
 Open Scope Z_scope.
 
 (* ASCII string literal -> str (used by the harness-written case files and the examples) *)
-Definition S (x : string) : str := map (fun a => Z.of_N (N_of_ascii a)) (list_ascii_of_string x).
+Definition str_of (x : string) : str := map (fun a => Z.of_N (N_of_ascii a)) (list_ascii_of_string x).
 
 (* member [m] subscribes to topic [t] *)
 Definition subscribes (ms : list member) (m t : str) : Prop :=
